@@ -26,10 +26,25 @@ class DataBool:
         self.op, self.lhs, self.rhs = op, lhs, rhs
 
     def __bool__(self):
+        s = self._structural()
+        if s is not None:
+            return s
         ctx = current_ctx()
         if ctx is None:
             raise NeedsConcrete("data comparison outside exploration context")
         return ctx.decide_data(self)
+
+    def _structural(self):
+        """x >= 0 / x < 0 for an entry x of a tensor that is non-negative by its dependency contract"""
+        try:
+            lhs, rhs = lift(self.lhs), lift(self.rhs if self.rhs is not None else 0)
+        except Exception:
+            return None
+        if self.op in (">=", "<") and rhs.ndim == 0 and rhs.body.is_zero() and lhs.ndim == 0:
+            ts = lhs.body.terms
+            if len(ts) == 1 and ts[0].coef > 0 and not ts[0].bound and all(a[0] == "E" and a[1] in NONNEG for a, _ in ts[0].facs):
+                return self.op == ">="
+        return None
 
     def __repr__(self):
         return f"<{self.lhs!r} {self.op} {self.rhs!r}>"
@@ -65,6 +80,17 @@ OPAQUE = {}
 _opq = itertools.count()
 
 
+NONNEG = set()  # names of opaque tensors whose entries are >= 0 by the dependency's contract (singular values)
+
+
+def register_factorisation(names, M):
+    """hypothesis: the chain product of the named opaque matrices equals the matrix M (e.g. U diag(S) V = M for an exact SVD)"""
+    M = inst(lift(M))
+    if M.ndim != 2 or len(M.axes[0]) != 1 or len(M.axes[1]) != 1:
+        raise EngineError("factorisation hypothesis on a matrix with composite axes")
+    X.FACTORISATIONS.append((tuple(names), (M.axes[0][0], M.axes[1][0], M.body)))
+
+
 LA_LOG = []  # call sites of linear-algebra dependencies in the current execution
 _opq_t = {}
 
@@ -75,6 +101,8 @@ def reset_execution():
     SQRT_LOG.clear()
     _opq_t.clear()
     X.ORTHO.clear()
+    del X.FACTORISATIONS[:]
+    NONNEG.clear()
     global _opq
     _opq = itertools.count()
 
@@ -98,6 +126,14 @@ def caller_snapshot(max_up=8):
             return snap
         f = f.f_back
     return {}
+
+
+def name_of(t):
+    """name of the symbolic input a tensor is a plain view of"""
+    ts = lift(t).body.terms
+    if len(ts) == 1 and len(ts[0].facs) == 1 and ts[0].facs[0][0][0] == "E":
+        return ts[0].facs[0][0][1]
+    raise EngineError("not a plain symbolic input")
 
 
 def axis_sizes(t):
@@ -936,8 +972,22 @@ def _expand_index(t, idx):
 
 def getitem(t, idx):
     log("getitem")
-    if isinstance(idx, np.ndarray) or isinstance(idx, list):
+    if isinstance(idx, list):
         raise EngineError("advanced indexing in E1-generic")
+    if isinstance(idx, tuple) and any(isinstance(i, np.ndarray) for i in idx) or isinstance(idx, np.ndarray):
+        # gather with a concrete integer index vector: stack of the selected slices along that axis
+        tup = idx if isinstance(idx, tuple) else (idx,)
+        pos = [k for k, i in enumerate(tup) if isinstance(i, np.ndarray)]
+        if len(pos) != 1 or tup[pos[0]].ndim != 1 or not all(isinstance(i, slice) and i == slice(None) for k, i in enumerate(tup) if k != pos[0]):
+            raise EngineError("unsupported concrete advanced indexing")
+        k = pos[0]
+        parts = []
+        for j in tup[k].tolist():
+            ix = list(tup)
+            ix[k] = builtins.int(j)
+            parts.append(getitem(t, tuple(ix)))
+        PRIM_LOG.append("getitem")
+        return stack(parts, axis=k)
     t = inst(t)
     items = _expand_index(t, idx)
     adv = [k for k, it in enumerate(items) if isinstance(it, GTensor)]
